@@ -181,12 +181,18 @@ def in_context(draw, e):
 def fixable_function(draw, i):
     kind = draw(st.sampled_from(["unused", "unused", "unused-sole", "unused-multiline", "unused-tuple", "unused-comp",
                                  "missing_f", "use_fstrings-percent", "use_fstrings-format", "too-many-positional",
-                                 "unused-ignore-trailing", "unused-ignore-own-line", "unused-aug", "unused-line1"]))
+                                 "unused-ignore-trailing", "unused-ignore-own-line", "unused-aug", "unused-line1",
+                                 "unused-unicode", "use_fstrings-unicode"]))
     wrap = draw(st.sampled_from(["none", "none", "if", "for", "try", "with", "class", "semicolons", "inline-if", "inline-def"]))
     head = f"def f{i}(a, b):"
     body = []
     if kind == "unused":
         body = [f"x{i} = a + 1", "return b"]
+    elif kind == "unused-unicode":
+        # multi-byte characters: AST column offsets count UTF-8 bytes, text columns count characters
+        body = [f'x{i} = "こんにちは世界、こんにちは"', "return b"]
+    elif kind == "use_fstrings-unicode":
+        body = [f'y{i} = "こんにちは世界、こんにちは%s" % a', f"return y{i}"]
     elif kind == "unused-sole":
         body = ["if a:", f"    x{i} = 1", "return b"]
     elif kind == "unused-multiline":
